@@ -13,7 +13,7 @@ open Goyang.Gen.Consts Goyang.Model
 theorem deviate_kinds_tied :
     «yang.toDeviation.map».map (·.1) = deviateKinds.map Val.str ∧
     «yang.toDeviation.map».map (fun p => (p.2, p.1)) = «yang.fromDeviation.map».take 4 ∧
-    [«yang.DeviationUnset», «yang.DeviationNotSupported», «yang.DeviationAdd», «yang.DeviationReplace», «yang.DeviationDelete»]
+    [«yang:DeviationUnset», «yang:DeviationNotSupported», «yang:DeviationAdd», «yang:DeviationReplace», «yang:DeviationDelete»]
       = [0, 1, 2, 3, 4] := by
   refine ⟨?_, ?_, ?_⟩ <;> rfl
 
